@@ -119,7 +119,8 @@ NSheet(name) == <<
     Cell(name, 1, 1, N(Whole(10 * NameNum(name)))),
     Cell(name, 2, 1, N(Whole(10 * NameNum(name) + 1))),
     Cell(name, 1, 2, FC(<<QRef(name, 1, 1), Lit("+"), QRef(name, 2, 1)>>, Whole(55))),
-    Cell(name, 3, 1, S(Txt(<<116>>))) >>
+    Cell(name, 3, 1, S(Txt(<<116>>))),
+    Cell(name, 4, 3, FC(<<Lit("SUM("), Lit("nm"), Lit(")")>>, Blank)) >>     \* a formula that USES the defined name
 Targets == << <<1, 1, 1, 1>>,      \* A1 a constant
               <<1, 2, 1, 2>>,      \* A2 a formula cell
               <<2, 2, 2, 2>>,      \* B2: nothing stored there
